@@ -73,7 +73,7 @@ Inductive op :=
 
 Definition junk (cols : nat) : lcont :=
   {| l_cols := cols; l_orders := []; l_angles := []; l_step := 0; l_clip := 0;
-     l_rows := 2 * cols; l_ncols := 2; l_junk := true |}.
+     l_rows := 2 * cols; l_ncols := 6; l_junk := true |}.
 
 Definition mem_hit (s : st) (cols : nat) (k : key) : option lcont :=
   match basis s, kprm s with
